@@ -25,6 +25,7 @@ EXPLANATION = (
     "name taken from the device answer (whole data field, big-endian unsigned for difficulties, "
     "bool(byte) for flags, hex for hashes/keys); answers are validated (op echo, id echo, lengths) "
     "before use; on the initial-mode-SIGNER partition uiHeartbeat returns OK only after reading "
+    "the reply is assembled from the command's (code, data) pair as {errorcode: code} or data + errorcode, heartbeat data only under the result's success flag; "
     "mode == SIGNER following the second exit. Does not decide values for all device states."
 )
 
